@@ -653,6 +653,7 @@ func (dec *Decoder) ExpectLiteralReader() (lit *LiteralReader, nonSync bool, err
 type LiteralReader struct {
 	dec  *Decoder
 	size int64
+	n    int64 // number of bytes read so far
 	r    io.Reader
 }
 
@@ -673,8 +674,13 @@ func (lit *LiteralReader) Read(b []byte) (int, error) {
 		lit.dec.crlf = false
 	}
 	n, err := lit.r.Read(b)
+	lit.n += int64(n)
 	if err == io.EOF {
 		lit.cancel()
+		if lit.n < lit.size {
+			// The connection has been closed in the middle of the literal
+			err = io.ErrUnexpectedEOF
+		}
 	}
 	return n, err
 }
